@@ -328,15 +328,20 @@ def r6(ctx: Ctx):
            ' would otherwise be dropped')
   fi = ctx.repo.func(CW, 'WorkerPool.iterate')
   g = cfgm.cfg_of(fi.node)
-  stops = [n for n in g.nodes if 'event_loop.stop' in (unparse(n.ast) if n.ast is not None else '')
-           and n.kind == 'stmt']
+  from mlmverif import pat
+  stops = [n for n in g.nodes if n.kind == 'stmt' and n.ast is not None and (
+      pat.has(n.ast, '$l.call_soon_threadsafe($l.stop)', nested=True) or pat.has(n.ast, '$l.stop()', nested=True))]
   if not stops:
     raise AnalysisError(f'{rule}: the event loop stop was not found in WorkerPool.iterate')
   q = None
   for x in walk_no_nested(fi.node):
     if isinstance(x, ast.Assign) and isinstance(x.targets[0], ast.Name) and isinstance(x.value, ast.Call) and (
-        unparse(x.value.func) in ('queue.SimpleQueue', 'queue.Queue')) and 'output' in x.targets[0].id:
-      q = x.targets[0].id
+        unparse(x.value.func) in ('queue.SimpleQueue', 'queue.Queue')):
+      # the queue whose elements the generator yields
+      cand = x.targets[0].id
+      if any(isinstance(y, ast.Yield) and y.value is not None and unparse(y.value) == f'{cand}.get()'
+             for y in ast.walk(fi.node)):
+        q = cand
   if q is None:
     raise AnalysisError(f'{rule}: the output queue was not found')
   drain_tests = {id(w_.test) for w_ in ast.walk(fi.node) if isinstance(w_, ast.While)
